@@ -20,6 +20,7 @@ RULE = ("calibrate_thermal for all 17 spacecraft x channels 3b/4/5 on generated 
         "window sums; plus the reader pipeline on KLM and POD files. A case = (spacecraft, channel, pass); non-trivial = "
         "pass with a gap, an invalid reading or a first line number other than 1; distinct by (spacecraft, channel, "
         "line numbers hash, telemetry hash)")
+RULE += (" In the thorough tier, and in the quick tier whenever the source differs from the validated baseline, a LONG-PASS stream is added (passes of 1300 .. 12000 lines, just beyond multiples of 256 .. 8192, with the property-relevant event placed at and after such multiples; DESIGN 10.4 round 13).")
 TRUSTED_EXTRA = ["libm exp/log are treated as the real functions to within the comparison tolerance (1e-6 K); numerical "
                  "agreement of the radiometric part is differential testing, not a theorem"]
 
